@@ -20,12 +20,25 @@ def pkg_inputs(rng, i):
         schema += "ALTER TABLE authors ADD COLUMN st status;\n"
         if rng.random() < 0.4:
             schema += "CREATE FUNCTION %sshout(text) RETURNS %s AS $$ SELECT 1 $$ LANGUAGE sql;\n" % (rng.choice(["", "pg_catalog."]), rng.choice(["text", "int", "boolean"]))
+    ext_q = ""
+    if eng == "postgresql" and rng.random() < 0.4:
+        # an extension every package may create; one package may replace or drop one of its functions - for itself only
+        schema = 'CREATE EXTENSION IF NOT EXISTS "pgcrypto";\n' + schema
+        r_ = rng.random()
+        if r_ < 0.35:
+            schema += "CREATE OR REPLACE FUNCTION digest(text, text) RETURNS %s AS $$ SELECT 1 $$ LANGUAGE sql;\n" % rng.choice(["text", "int", "boolean"])
+        elif r_ < 0.5:
+            schema += "DROP FUNCTION digest(text, text);\n"
+        elif r_ < 0.6:
+            schema += "CREATE FUNCTION gen_salt(text) RETURNS int AS $$ SELECT 1 $$ LANGUAGE sql;\n"
+        ext_q = "\n-- name: Digest :many\nSELECT digest('x', 'sha1'), gen_salt('bf') FROM authors;\n"
     ph = "$1" if eng == "postgresql" else "?"
     q = "-- name: GetAuthor :one\nSELECT * FROM authors WHERE id = %s;\n\n-- name: ListAuthors :many\nSELECT id, %s FROM authors;\n" % (ph, cols[0].split()[0])
     if "shout" in schema or (eng == "postgresql" and rng.random() < 0.3):
         q += "\n-- name: Loud :many\nSELECT shout(%s) FROM authors;\n" % ("name" if any(c.startswith("name") for c in cols) else "'x'")
     if eng == "postgresql" and rng.random() < 0.5:
         q += "\n-- name: Twice :many\nSELECT id FROM authors WHERE id > $2 AND id < $1 AND id <> $1;\n"
+    q += ext_q
     lang = "kotlin" if (eng == "postgresql" and rng.random() < 0.3) else "go"
     if lang == "go":
         gen = {"go": {"package": "db", "out": "out/p%d" % i, "emit_interface": rng.random() < 0.3, "emit_json_tags": rng.random() < 0.3}}
